@@ -473,8 +473,58 @@ func c12Position(j *Job, standalone [][]byte, names []string) {
 	}
 }
 
+// c12AcceptedReencode: packets the library has not built itself but accepts - an empty
+// HEARTBEAT / HEARTBEAT-ACK, ABORT and SHUTDOWN-COMPLETE with the T bit, an INIT with a parameter
+// the library has no type for - can be encoded again, the result is accepted again, and encoding
+// that once more reproduces the same bytes.
+func c12AcceptedReencode(j *Job) {
+	if !j.mine(2) {
+		return
+	}
+	hdr := func(tag uint32) []byte {
+		raw, _ := (&packet{sourcePort: 5000, destinationPort: 5000, verificationTag: tag}).marshal(false)
+		return raw[:packetHeaderSize]
+	}
+	cases := []struct {
+		name   string
+		tag    uint32
+		chunks []byte
+	}{
+		{"heartbeat-empty", 7, []byte{byte(ctHeartbeat), 0, 0, 4}},
+		{"heartbeat-ack-empty", 7, []byte{byte(ctHeartbeatAck), 0, 0, 4}},
+		{"sack+heartbeat-ack-empty", 7, append([]byte{byte(ctSack), 0, 0, 16, 0, 0, 0, 1, 0, 0, 16, 0, 0, 0, 0, 0}, byte(ctHeartbeatAck), 0, 0, 4)},
+		{"abort-T", 7, []byte{byte(ctAbort), 1, 0, 8, 0, 12, 0, 4}},
+		{"shutdown-complete-T", 7, []byte{byte(ctShutdownComplete), 1, 0, 4}},
+		{"init-unknown-param", 0, append([]byte{byte(ctInit), 0, 0, 28, 0, 0, 0, 9, 0, 16, 0, 0, 0, 10, 0, 10, 0, 0, 0, 5}, 0xc0, 0x06, 0, 8, 0, 0, 0, 1)},
+	}
+	for _, c := range cases {
+		j.Stats.Steps++
+		raw := append(hdr(c.tag), c.chunks...)
+		binary.LittleEndian.PutUint32(raw[8:], generatePacketChecksum(raw))
+		pk := &packet{}
+		if err := pk.unmarshal(true, raw); err != nil {
+			continue // not accepted: nothing is promised
+		}
+		raw2, err := pk.marshal(true)
+		if err != nil {
+			j.failSeq("codec.reencode-accepted", "accepted/"+c.name, fmt.Sprintf("the packet %x is accepted (%d chunks) but cannot be encoded again: %v", raw, len(pk.chunks), err), nil)
+			continue
+		}
+		pk2 := &packet{}
+		if err := pk2.unmarshal(true, raw2); err != nil {
+			j.failSeq("codec.reencode-accepted", "accepted/"+c.name, fmt.Sprintf("the packet %x is accepted, its re-encoding %x is refused: %v", raw, raw2, err), nil)
+			continue
+		}
+		raw3, err := pk2.marshal(true)
+		if err != nil || !bytes.Equal(raw2, raw3) || len(pk2.chunks) != len(pk.chunks) {
+			j.failSeq("codec.reencode-accepted", "accepted/"+c.name, fmt.Sprintf("re-encoding is not stable: %x -> %x -> %x (err=%v)", raw, raw2, raw3, err), nil)
+		}
+	}
+}
+
 func propC12(j *Job) {
 	c12Oversize(j)
+	c12AcceptedReencode(j)
 	samples := codecSamples()
 	standalone := make([][]byte, len(samples)) // chunk bytes incl. padding when sent alone
 	// (i) single chunks
